@@ -706,17 +706,11 @@ func (t *ZeroAllocTokenizer) processBlockTag(content string) {
 			// Add 'with' keyword
 			t.AddToken(TOKEN_NAME, "with", t.line)
 
-			// Process context expression as object
-			if strings.HasPrefix(contextExpr, "{") && strings.HasSuffix(contextExpr, "}") {
-				// Context is an object literal
-				t.AddToken(TOKEN_PUNCTUATION, "{", t.line)
-				objectContent := contextExpr[1 : len(contextExpr)-1]
-				t.tokenizeObjectContents(objectContent)
-				t.AddToken(TOKEN_PUNCTUATION, "}", t.line)
-			} else {
-				// Context is a variable or expression
-				t.TokenizeExpression(contextExpr)
-			}
+			// The context (a hash literal, a variable, trailing keywords such as
+			// 'only') is tokenized as an expression: the expression tokenizer
+			// knows strings, nested brackets and parentheses, so a value like
+			// max(a, b) is not cut at its comma
+			t.TokenizeExpression(contextExpr)
 		} else {
 			// Just a template path
 			t.tokenizeTemplatePath(blockContent)
